@@ -10,7 +10,7 @@ from . import kani as KANI
 
 
 def generic_key(key):
-    k = re.sub(r'\b(BUint|BInt)D(8|16|32)\b', r'\1', key)
+    k = re.sub(r'(BUint|BInt)D(8|16|32)(?![0-9A-Za-z_])', r'\1', key)
     k = re.sub(r'\bdigit::u(8|16|32|64)::', 'digit::', k)
     return k.replace(' ', '')
 
